@@ -111,60 +111,10 @@ func (c *Check) logf(format string, a ...any) {
 }
 
 func (c *Check) Run(sel []HarnessDef) int {
-	// overlay: harness files + runtime, per package
-	overlay := map[string][]byte{}
-	pkgSet := map[string]bool{}
-	rt, err := os.ReadFile(filepath.Join(verifDir, "harness", "rt.go.tmpl"))
+	overlay, patterns, err := c.buildOverlay(sel)
 	if err != nil {
-		fmt.Fprintln(os.Stderr, err)
+		fmt.Fprintln(os.Stderr, "harness files:", err)
 		return 2
-	}
-	addPkgFiles := func(pkg string, withRT bool) error {
-		if pkgSet[pkg] {
-			return nil
-		}
-		pkgSet[pkg] = true
-		dir := filepath.Join(verifDir, "harness", pkg)
-		ents, err := os.ReadDir(dir)
-		if err != nil {
-			return err
-		}
-		pkgName := ""
-		for _, e := range ents {
-			if !strings.HasSuffix(e.Name(), ".go") {
-				continue
-			}
-			data, err := os.ReadFile(filepath.Join(dir, e.Name()))
-			if err != nil {
-				return err
-			}
-			if pkgName == "" {
-				pkgName = packageName(data)
-			}
-			overlay[filepath.Join(repoDir, pkg, "zz_verif_"+e.Name())] = data
-		}
-		if withRT && pkgName != "" {
-			overlay[filepath.Join(repoDir, pkg, "zz_verif_rt.go")] = bytes.ReplaceAll(rt, []byte("PKGNAME"), []byte(pkgName))
-		}
-		return nil
-	}
-	var patterns []string
-	for _, h := range sel {
-		if !pkgSet[h.Pkg] {
-			patterns = append(patterns, "./"+h.Pkg)
-		}
-		if err := addPkgFiles(h.Pkg, true); err != nil {
-			fmt.Fprintln(os.Stderr, "harness files:", err)
-			return 2
-		}
-		for _, x := range h.Extra {
-			data, err := os.ReadFile(filepath.Join(verifDir, "harness", x.Pkg, x.File))
-			if err != nil {
-				fmt.Fprintln(os.Stderr, "extra file:", err)
-				return 2
-			}
-			overlay[filepath.Join(repoDir, x.Pkg, "zz_verif_"+filepath.Base(x.File))] = data
-		}
 	}
 	t0 := time.Now()
 	ld, err := gosym.Load(repoDir, patterns, overlay, "verif")
@@ -502,10 +452,17 @@ func (c *Check) runNativeReplays(runs []*harnessRun, overlay map[string][]byte) 
 				list := filepath.Join(tmp, fmt.Sprintf("list-%s-%d", tag, k))
 				out := filepath.Join(tmp, fmt.Sprintf("out-%s-%d", tag, k))
 				os.WriteFile(list, []byte(rc.path), 0o644)
-				run := exec.Command(bin, "-test.run", "^TestVerifReplay$", "-test.timeout", "60s")
+				tmo := "60s"
+				if os.Getenv("VERIF_REPLAY_DEBUG") != "" {
+					tmo = "8s"
+				}
+				run := exec.Command(bin, "-test.run", "^TestVerifReplay$", "-test.timeout", tmo)
 				run.Dir = filepath.Join(repoDir, pkg)
 				run.Env = append(os.Environ(), "VERIF_REPLAY_LIST="+list, "VERIF_REPLAY_OUT="+out)
 				ro, rerr := run.CombinedOutput()
+				if os.Getenv("VERIF_REPLAY_DEBUG") != "" && rerr != nil {
+					os.WriteFile("/tmp/verif-replay-debug.txt", ro, 0o644)
+				}
 				var nr *nativeResult
 				if data, e := os.ReadFile(out); e == nil {
 					for _, line := range bytes.Split(data, []byte("\n")) {
@@ -539,6 +496,63 @@ func (c *Check) runNativeReplays(runs []*harnessRun, overlay map[string][]byte) 
 		c.logf("native replay %s: %d files in %.1fs", pkg, len(cases), time.Since(t0).Seconds())
 	}
 	return nil
+}
+
+// buildOverlay collects the harness files and the runtime for the packages of sel.
+func (c *Check) buildOverlay(sel []HarnessDef) (map[string][]byte, []string, error) {
+	// overlay: harness files + runtime, per package
+	overlay := map[string][]byte{}
+	pkgSet := map[string]bool{}
+	rt, err := os.ReadFile(filepath.Join(verifDir, "harness", "rt.go.tmpl"))
+	if err != nil {
+		return nil, nil, err
+	}
+	addPkgFiles := func(pkg string, withRT bool) error {
+		if pkgSet[pkg] {
+			return nil
+		}
+		pkgSet[pkg] = true
+		dir := filepath.Join(verifDir, "harness", pkg)
+		ents, err := os.ReadDir(dir)
+		if err != nil {
+			return err
+		}
+		pkgName := ""
+		for _, e := range ents {
+			if !strings.HasSuffix(e.Name(), ".go") {
+				continue
+			}
+			data, err := os.ReadFile(filepath.Join(dir, e.Name()))
+			if err != nil {
+				return err
+			}
+			if pkgName == "" {
+				pkgName = packageName(data)
+			}
+			overlay[filepath.Join(repoDir, pkg, "zz_verif_"+e.Name())] = data
+		}
+		if withRT && pkgName != "" {
+			overlay[filepath.Join(repoDir, pkg, "zz_verif_rt.go")] = bytes.ReplaceAll(rt, []byte("PKGNAME"), []byte(pkgName))
+		}
+		return nil
+	}
+	var patterns []string
+	for _, h := range sel {
+		if !pkgSet[h.Pkg] {
+			patterns = append(patterns, "./"+h.Pkg)
+		}
+		if err := addPkgFiles(h.Pkg, true); err != nil {
+			return nil, nil, err
+		}
+		for _, x := range h.Extra {
+			data, err := os.ReadFile(filepath.Join(verifDir, "harness", x.Pkg, x.File))
+			if err != nil {
+				return nil, nil, err
+			}
+			overlay[filepath.Join(repoDir, x.Pkg, "zz_verif_"+filepath.Base(x.File))] = data
+		}
+	}
+	return overlay, patterns, nil
 }
 
 type evidence struct {
@@ -850,4 +864,59 @@ var trustedBase = []string{
 	"no-op stubs: pkg/foundation/log, zerolog, pkg/foundation/metrics, prometheus, inspector",
 	"harness fakes at interface seams (listed in DESIGN.md per property)",
 	"z3 4.8.12; native replay through `go test -overlay` for every reported violation and for sampled paths (translator validation)",
+}
+
+// runReplay re-runs one replay file natively (n times) and prints how each run ended.
+func runReplay(path string, n int) int {
+	data, err := os.ReadFile(path)
+	if err != nil {
+		fmt.Fprintln(os.Stderr, err)
+		return 2
+	}
+	var rf replayFile
+	if err := json.Unmarshal(data, &rf); err != nil {
+		fmt.Fprintln(os.Stderr, err)
+		return 2
+	}
+	idx, err := loadIndex()
+	if err != nil {
+		fmt.Fprintln(os.Stderr, err)
+		return 2
+	}
+	var def *HarnessDef
+	for k := range idx.Harnesses {
+		if idx.Harnesses[k].Name == rf.Harness {
+			def = &idx.Harnesses[k]
+		}
+	}
+	if def == nil {
+		fmt.Fprintln(os.Stderr, "unknown harness", rf.Harness)
+		return 2
+	}
+	ck := &Check{Prop: rf.Property, Tier: "quick", Verbose: true, Start: time.Now()}
+	overlay, _, err := ck.buildOverlay([]HarnessDef{*def})
+	if err != nil {
+		fmt.Fprintln(os.Stderr, err)
+		return 2
+	}
+	exit := 0
+	for k := 0; k < n; k++ {
+		hr := &harnessRun{def: *def, otherProp: map[string]int{}}
+		hr.replays = []*replayCase{{path: path, purpose: "violation", res: &gosym.PathResult{Kind: rf.Expect.Kind, Label: rf.Expect.Label}}}
+		if err := ck.runNativeReplays([]*harnessRun{hr}, overlay); err != nil {
+			fmt.Fprintln(os.Stderr, err)
+			return 2
+		}
+		nr := hr.replays[0].native
+		if nr == nil {
+			fmt.Println("run", k, "no result", hr.mismatch)
+			exit = 2
+			continue
+		}
+		fmt.Printf("run %d: kind=%s label=%s msg=%s observes=%v\n", k, nr.Kind, nr.Label, firstLines(nr.Msg, 3), nr.Observes)
+		if nr.Kind == "violation" {
+			exit = 1
+		}
+	}
+	return exit
 }
